@@ -295,11 +295,34 @@ func judgeC09(c *C09Case, cx *Ctx) *Violation {
 		if !e.ExecutePolyTree64(c.CT, c.FR, tree, &op) {
 			return violf("ExecutePolyTree64 returned false")
 		}
+		// the open solution handed back by the tree form is the one whose geometry was judged above
+		if treeOpen := pathsFromD(op, 1); !kit.PathsEqual(treeOpen, open) {
+			return violf("ExecutePolyTree64 open solution %v differs from ExecuteOC's open solution %v", treeOpen, open)
+		}
 		polys := treePolygons(tree.PolyPathBase)
 		// C09 only demands that no open path shows up as a tree polygon: every tree polygon
 		// must be one of the closed paths (the full tree == paths comparison is C04's)
 		if v := sameMultiset(polys, closed); strings.HasPrefix(v, "only in first") {
 			return violf("tree execution with open subjects: a tree polygon is not among the closed paths solution (%s): tree=%v closed=%v", v, polys, closed)
+		}
+	}
+	if c.EngineD {
+		e := c2.NewClipperD(2)
+		e.AddPaths(pathsToD(c.Open, 100), c2.Subject, true)
+		if len(c.ClosedSubj) > 0 {
+			e.AddPaths(pathsToD(c.ClosedSubj, 100), c2.Subject, false)
+		}
+		e.AddPaths(pathsToD(c.Clip, 100), c2.Clip, false)
+		tree := c2.NewPolyTreeD()
+		op := c2.PathsD{}
+		if !e.ExecutePolyTreeD(c.CT, c.FR, tree, &op) {
+			return violf("ExecutePolyTreeD returned false")
+		}
+		if treeOpen := pathsFromD(op, 100); !kit.PathsEqual(treeOpen, open) {
+			return violf("ExecutePolyTreeD open solution %v differs from ExecuteOC's open solution %v", treeOpen, open)
+		}
+		if v := sameMultiset(treePolygons(tree.PolyPathBase), closed); strings.HasPrefix(v, "only in first") {
+			return violf("tree execution (D) with open subjects: a tree polygon is not among the closed paths solution (%s)", v)
 		}
 	}
 	dom := "domain:strict"
